@@ -1,6 +1,7 @@
 """Node-wise contracts on every node of every plan stage: divisions (C06), schema (C07), graph (C09)."""
 from __future__ import annotations
 
+import re
 import pickle
 import warnings
 
@@ -355,12 +356,27 @@ def fused_input_bindings(expr):
     return out
 
 
+_TOKEN_NAME = re.compile(r"^.+-[0-9a-f]{32}$")
+
+
+def _is_key_like(t, names, depth=0):
+    """(name, int...) where name is a name space of this graph or LOOKS like an expression name (`<label>-<32 hex digits>`:
+    a key of something that should have been merged into the graph), or - for keys built on other keys, as delayed
+    objects have them - (key-like tuple, int...)."""
+    if not (isinstance(t, tuple) and len(t) >= 2 and all(isinstance(x, (int, np.integer)) and not isinstance(x, bool) for x in t[1:])):
+        return False
+    head = t[0]
+    if isinstance(head, str):
+        return head in names or bool(_TOKEN_NAME.match(head))
+    return depth < 3 and _is_key_like(head, names, depth + 1)
+
+
 def _key_like_refs(task, names, depth=0):
     """Yield tuples inside a task that look like keys (name, int...) of one of this graph's name spaces."""
     if depth > 8:
         return
     if isinstance(task, tuple):
-        if task and isinstance(task[0], str) and task[0] in names and len(task) >= 2 and all(isinstance(x, (int, np.integer)) for x in task[1:]):
+        if _is_key_like(task, names):
             yield task
             return
         start = 1 if task and callable(task[0]) else 0
